@@ -29,6 +29,10 @@ def problems():
         'clipped': (2, lambda X: max(2.0 - (X[0] + X[1]) / math.sqrt(2), 0.0), [stats.norm(), stats.norm()], np.eye(2), None),
         'integer': (2, lambda X: float(math.floor(2.5 - X[0] - X[1])), [stats.norm(), stats.norm()], np.eye(2), None),
         # correlated non-normal marginals (the latent correlation depends on the quadrature parameters)
+        # the same families as 'linear2' / 'lognormal' with the parameters written as keywords (another distribution, same family and shape of
+        # the argument list): runs on different problems in one process must not share anything
+        'linear2kw': (2, lambda X: 27.0 - X[0] - X[1], [stats.norm(loc=10, scale=2), stats.norm(loc=10.0, scale=2.0)], np.eye(2), 7.0 / math.sqrt(8)),
+        'lognormalkw': (2, lambda X: X[0] * X[1] - 0.8, [stats.lognorm(s=0.5, scale=2.0), stats.lognorm(s=0.3, scale=2.0)], np.eye(2), None),
         'correlated': (2, lambda X: X[0] + X[1] - 0.6, [stats.lognorm(0.5), stats.expon()], np.array([[1.0, 0.6], [0.6, 1.0]]), None),
     }
 
@@ -132,11 +136,13 @@ def check_run(res, name, N, p0, maxSub, seed, reqs, meta, quad=None, config=None
 def explore(res, rng, n):
     reqs, meta = [], []
     for i in range(n):
-        name = rng.choice(['linear2', 'linear2', 'linear3', 'lognormal', 'quadratic', 'clipped', 'integer', 'correlated'])
+        name = rng.choice(['linear2', 'linear2', 'linear3', 'lognormal', 'quadratic', 'clipped', 'integer', 'correlated', 'linear2kw', 'lognormalkw'])
         if i < 2:
             name = ['clipped', 'integer'][i]
         if i == 5:
             name = 'correlated'
+        if i in (6, 7, 8, 9):
+            name = ['linear2', 'linear2kw', 'lognormal', 'lognormalkw'][i - 6]
         # incl. p0 * N that is not an integer, exactly (7.5, 3.3) or only in binary64 (0.07 * 100 = 7.000000000000001, 0.29 * 100 = 28.999999999999996)
         N, p0 = rng.choice([(20, 0.5), (40, 0.25), (50, 0.1), (30, 0.3), (100, 0.3), (64, 0.125), (10, 0.3), (60, 0.2),
                             (100, 0.07), (100, 0.29), (50, 0.15), (25, 0.3), (33, 0.1)])
